@@ -351,7 +351,16 @@ impl HScenario {
             let h = build(len, c).map_err(|e| Viol::new("harness", format!("generated edge vector rejected: {}", e)))?;
             let edges = h.ranges();
             if edges.len() != len + 1 || edges.iter().any(|e| e.is_nan()) || edges.windows(2).any(|w| w[0] > w[1]) {
-                // not a valid histogram: outside every property here (C12 is not claimed)
+                // A constructor that succeeded must have produced LEN+1 non-decreasing edges: every
+                // clause of C06 ("the one bin i with lower_i <= x < upper_i") presupposes it.
+                // (from_ranges rejects such input itself; with_const_width is only called with
+                // finite start < end.)
+                if matches!(prop, HProp::C06) {
+                    return Err(Viol::new(
+                        "Histogram:constructed_edges_not_sorted",
+                        format!("{:?} produced the edges {:?}: bins are not disjoint half-open intervals", c, edges),
+                    ));
+                }
                 return Ok(());
             }
             ms.push(Model { edges, counts: vec![0; len] });
